@@ -61,7 +61,7 @@ func TestC16_TokenFactoryModel(t *testing.T) {
 		formerAdminAttempts, foreignAttempts, successes := 0, 0, 0
 		formerAdmins := map[string]map[string]bool{} // denom -> set of former admins
 
-		subdenoms := []string{"foo", "bar", "a/b", "ugrain", "x", strings.Repeat("s", 44), strings.Repeat("t", 45), "factory", "f.o-o:1"}
+		subdenoms := []string{"foo", "bar", "a/b", "ugrain", "x", strings.Repeat("s", 44), strings.Repeat("t", 45), "factory", "f.o-o:1", "gold", "Gold", "gOLD", "Foo"}
 		var otherDenoms []string
 		// denom universe for privileged actions: model denoms + natives + unknown + malformed
 		pickDenom := func(t *rapid.T) string {
